@@ -22,6 +22,8 @@ def payload_of(api, arg):
         return arg.encode('utf-8')
     if api == 'close':
         code = arg[0] if arg else 1000
+        if arg and arg[0] is None:
+            return b''
         reason = arg[1] if len(arg) > 1 else b'goodbye'
         return ref_ws.close_payload(code, reason if isinstance(reason, bytes) else reason.encode('utf-8'))
     return arg
